@@ -64,9 +64,23 @@ def replay_makefilename(ctx, rec):
         got, data_ok = "raised " + exc_name(exc), True
     ctx.case(["makefilename", rec["chain"], c0], nontrivial=len(rec["chain"]) > 1)
     if got != exp or not data_ok:
-        ctx.violation("MakeFilename:%s" % mf_key(rec), {"chain": rec["chain"], "c0": c0, "expected": exp, "observed": got})
-        return False
-    return True
+        return {"chain": rec["chain"], "c0": c0, "expected": exp, "observed": got}
+    return None
+
+
+def report_makefilename(ctx, failures):
+    """One violation per shortest failing chain shape (smallest initial context as the example)."""
+    if not failures:
+        return
+    shortest = min(len(f["chain"]) for f in failures)
+    by_shape = {}
+    for f in failures:
+        if len(f["chain"]) == shortest:
+            by_shape.setdefault(mf_key(f).split("|")[0], []).append(f)
+    for shape in sorted(by_shape)[:12]:
+        fs = by_shape[shape]
+        f = min(fs, key=lambda x: (x["c0"]["var"], x["c0"]["fn0"], x["c0"]["ax0"]))
+        ctx.violation("MakeFilename:%s" % mf_key(f), dict(f, failing_contexts=len(fs), failing_scenarios=len(failures)))
 
 
 # ---------------------------------------------------------------------------- output chain
@@ -149,8 +163,7 @@ def run(ctx):
         ctx.mc("MakeFilename", "MakeFilename_thorough2.cfg")
     # ---- MakeFilename: spec -> code
     recs = ctx.export("MakeFilename", "MakeFilename_%s_export.cfg" % tag, min_records=1000)
-    for rec in recs:
-        replay_makefilename(ctx, rec)
+    report_makefilename(ctx, [f for f in (replay_makefilename(ctx, rec) for rec in recs) if f])
     ctx.sample({"makefilename_behaviour": recs[len(recs) // 3]})
     del recs
     # ---- output chain: spec -> code
@@ -162,10 +175,12 @@ def run(ctx):
                                              "touched_before_each_run": [x["touched"] for x in recs[len(recs) // 2]["h"]]}})
         items.extend(items_from_export(recs))
     ctx.extra["exported_histories"] = len(items)
-    ol.check_histories(ctx, items, "export")
+    reported = set()
+    ol.check_histories(ctx, items, "export", reported=reported)
     # ---- code -> spec: random longer histories
     rnd = random.Random(ctx.seed)
-    ol.check_histories(ctx, [random_history(rnd) for _ in range(2000 if ctx.thorough else 200)], "random")
+    ol.check_histories(ctx, [random_history(rnd) for _ in range(2000 if ctx.thorough else 200)], "random",
+                       reported=reported)
     binding_demo(ctx)
     return ctx.finish(
         rule="S2C: every history of the bounded Output model (touch subsets of bounded size before each of 2-3 runs, "
